@@ -64,8 +64,7 @@ func (h *Host) listenUDP(ip IP, port int) (*UDPConn, error) {
 	}
 	a := &UDPAddr{IP: ip, Port: port}
 	key := "udp:" + strconv.Itoa(port)
-	if n := h.failNext[key]; n > 0 {
-		h.failNext[key] = n - 1
+	if h.injected(key) {
 		return nil, addrInUse("listen", "udp", a)
 	}
 	if h.udp[port] != nil || h.squat[key] {
